@@ -113,7 +113,10 @@ Proof.
     apply (fold_inv2 (fun st' n => fst (remove_label st' n l))); try assumption; intros; [apply pres_remove_label|apply lidx_remove_label; assumption].
   - destruct (sess st s); exact H.
   - destruct (sess st s); exact H.
-  - pose proof (lidx_delete_node_at_epoch st n (st_epoch st) H) as H1. destruct (delete_node_at_epoch st n (st_epoch st)). exact H1.
+  - assert (H0 : lidx_ok (db_detach st n)).
+    { unfold db_detach. destruct (c_visible_at _ _); [apply lidx_delete_node_edges|]; exact H. }
+    set (st1 := db_detach st n) in *.
+    pose proof (lidx_delete_node_at_epoch st1 n (st_epoch st1) H0) as H1. destruct (delete_node_at_epoch st1 n (st_epoch st1)). exact H1.
   - exact H.
   - exact H.
   - pose proof (lidx_add_label st n l Hi H) as H1. destruct (add_label st n l). exact H1.
